@@ -45,6 +45,9 @@ type Path struct {
 
 type Case struct {
 	Relation string `json:"relation"` // offset scale indirection operator
+	// Window (offset relation): 0 the destination is the whole larger image; 1 a sub-image of it
+	// around the rectangle; 2 a sub-image exactly as wide as the rectangle.
+	Window int `json:"window,omitempty"`
 	// Literal: the compared rasteriser is made with a struct literal (&vec.Rasterizer{Dst: img}),
 	// as the repository's own tests and example do, not with NewRasterizer.
 	Literal bool        `json:"literal,omitempty"`
@@ -178,8 +181,19 @@ func checkPixels(c Case) error {
 		big := image.Rect(0, 0, c.W+c.Off[0]+7, c.H+c.Off[1]+5).Add(image.Pt(c.Origin[0], c.Origin[1]))
 		target := own.Add(image.Pt(c.Off[0]+c.Origin[0], c.Off[1]+c.Origin[1]))
 		img := newImage(c.Alpha, big, prefill)
+		parent := img
+		switch c.Window {
+		case 1: // the destination is a window into the sheet (Stride wider than the window)
+			img = img.(interface {
+				SubImage(image.Rectangle) image.Image
+			}).SubImage(image.Rect(target.Min.X-1, big.Min.Y, big.Max.X-2, big.Max.Y)).(draw.Image)
+		case 2: // ... as wide as the rectangle exactly: a band
+			img = img.(interface {
+				SubImage(image.Rectangle) image.Image
+			}).SubImage(image.Rect(target.Min.X, big.Min.Y, target.Max.X, big.Max.Y)).(draw.Image)
+		}
 		z := newRast(c, img)
-		if c.Sheet {
+		if c.Sheet && c.Window == 0 {
 			// an earlier tile with the same Renderer and rasteriser, then the sheet is wiped again
 			var r render.Renderer
 			tile := image.Rect(big.Min.X, big.Min.Y, big.Min.X+5, big.Min.Y+4)
@@ -200,7 +214,7 @@ func checkPixels(c Case) error {
 		}
 		for y := big.Min.Y; y < big.Max.Y; y++ {
 			for x := big.Min.X; x < big.Max.X; x++ {
-				got := img.At(x, y)
+				got := parent.At(x, y)
 				if image.Pt(x, y).In(target) {
 					if want := base.At(x-c.Off[0]-c.Origin[0], y-c.Off[1]-c.Origin[1]); got != want {
 						return harness.Violatef("c16/offset", "pixel (%d,%d) of the rectangle placed at offset %v in an image with origin %v is %v, drawn into its own image it is %v", x-c.Off[0]-c.Origin[0], y-c.Off[1]-c.Origin[1], c.Off, c.Origin, got, want)
@@ -447,6 +461,7 @@ func genCase(t *rapid.T) Case {
 	}
 	c.Alpha = rapid.IntRange(0, 3).Draw(t, "alpha") == 0
 	c.Literal = rapid.IntRange(0, 2).Draw(t, "literal") == 0
+	c.Window = rapid.SampledFrom([]int{0, 0, 0, 1, 2}).Draw(t, "window")
 	c.Src = rapid.Bool().Draw(t, "src")
 	if c.Relation == "operator" {
 		c.Src = rapid.IntRange(0, 3).Draw(t, "srcop") != 0
@@ -471,6 +486,9 @@ func TestPixelRelations(t *testing.T) {
 		}
 		if c.Relation == "offset" && (c.Origin[0] != 0 || c.Origin[1] != 0) {
 			labels = append(labels, "image-with-non-zero-origin")
+		}
+		if c.Window != 0 && c.Relation == "offset" {
+			labels = append(labels, "destination-is-a-sub-image")
 		}
 		if c.Literal {
 			labels = append(labels, "rasteriser-made-with-a-struct-literal")
